@@ -757,6 +757,9 @@ func (e *clEngine) oracleBookkeeping() {
 	p := e.pool()
 	cur := p.GetCurrentTick()
 	where := fmt.Sprintf("op %d", e.opn)
+	if e.mainPool != 0 && e.poolId != e.mainPool {
+		where = fmt.Sprintf("op %d (%s) pool %d next to the pool under test %d", e.opn, e.opClass, e.poolId, e.mainPool)
+	}
 	// positions as the keeper reports them (per owner query) must be exactly the shadow set
 	seen := map[uint64]bool{}
 	active := new(big.Int)
@@ -769,7 +772,25 @@ func (e *clEngine) oracleBookkeeping() {
 		m[t].Add(m[t], v)
 	}
 	for i, a := range e.accs {
-		ps, _ := k.GetUserPositions(e.ctx(), a, e.poolId)
+		// the owner's positions in this pool: the unfiltered per-owner query (pool id 0 = every pool), reduced to this pool by
+		// the stored PoolId; the keeper's own pool filter must give the same list
+		byPool, _ := k.GetUserPositions(e.ctx(), a, e.poolId)
+		all, _ := k.GetUserPositions(e.ctx(), a, 0)
+		ps := all[:0]
+		for _, q := range all {
+			if q.PoolId == e.poolId {
+				ps = append(ps, q)
+			}
+		}
+		if len(byPool) != len(ps) {
+			key := "book:user-positions-by-pool-query-differs:pool-id<10"
+			if e.poolId >= 10 {
+				key = "book:user-positions-by-pool-query-differs:pool-id>=10"
+			}
+			o.Fail(key, fmt.Sprintf("%s: GetUserPositions(acc%d, pool %d) lists %d positions, GetUserPositions(acc%d, 0) lists %d with PoolId %d", where, i, e.poolId, len(byPool), i, len(ps), e.poolId))
+		} else if len(ps) > 0 {
+			o.Count("book.user-positions-by-pool-query-agrees")
+		}
 		for _, q := range ps {
 			seen[q.PositionId] = true
 			sh, ok := e.pos[q.PositionId]
